@@ -140,8 +140,9 @@ func scenarioC07(x *runner.X) {
 	x.Sim(runner.SimOpts{Phase: "gsfa-paging", Cfg: dsim.Config{MaxSteps: 30000000, MaxSimTime: 10 * time.Hour}}, func() {
 		s := dsim.Active()
 		multi := NewMultiEpoch(&Options{EpochSearchConcurrency: 2})
+		srvLoad := newServerLoader()
 		for _, b := range ws {
-			ep, err := loadEpoch(b.cfg)
+			ep, err := srvLoad(b.cfg)
 			if err != nil {
 				s.Fail("oracle", "a freshly indexed epoch cannot be loaded", err.Error())
 			}
@@ -326,6 +327,8 @@ func scenarioC07(x *runner.X) {
 				}
 				continue
 			}
+			gotSigs := map[solana.Signature]bool{}
+			nGot := 0
 			for _, txs := range res {
 				for _, tx := range txs {
 					if uint64(tx.Slot) < until || uint64(tx.Slot) >= before {
@@ -333,6 +336,28 @@ func scenarioC07(x *runner.X) {
 							return
 						}
 					}
+					if sg, err := tx.Signature(); err == nil {
+						gotSigs[sg] = true
+					}
+					nGot++
+				}
+			}
+			// completeness: the newest `limit` transactions of the history that lie in [until, before)
+			var wantTxs []*world.Tx
+			for _, tx := range H {
+				if tx.Slot >= until && tx.Slot < before && len(wantTxs) < limit {
+					wantTxs = append(wantTxs, tx)
+				}
+			}
+			missing := 0
+			for _, tx := range wantTxs {
+				if !gotSigs[tx.Sig()] {
+					missing++
+				}
+			}
+			if missing > 0 || nGot != len(wantTxs) {
+				if x.Failf("oracle", "the slot-bounded history read does not return exactly the newest transactions of the slot range", "%s returned %d transactions, %d of the %d expected are missing; expected %v", what, nGot, missing, len(wantTxs), sigList(wantTxs)) {
+					return
 				}
 			}
 		}
